@@ -2,7 +2,7 @@
    BOTH directions (First/Last/Seek/Next/Prev), Snapshot and Transaction reads, reads in two phases so that several
    calls are in flight, and the life cycle of table block buffers between the buffer pool of Base/UBuffer.v
    (util.BufferPool), the block cache (with handles), the iterators' table children and the reading calls.
-   Model file: definitions only (proofs in Alias/XInvProofs.v, Alias/XIterProofs.v).
+   Model file: definitions only (proofs in Alias/XPoolProofs.v, Alias/XInvProofs.v, Alias/XIterProofs.v).
 
    Derived by reading
      leveldb/db_iter.go        dbIter.next() AND dbIter.prev() both do  i.key = append(i.key[:0], ukey...) and
@@ -34,7 +34,8 @@
    the merged iterator reposition themselves; index and filter blocks; a movement has a second list for where the
    children rest once the entry has been exposed).  The theorems quantify over them.
 
-   Not modelled: reallocation by append (a dbIter buffer that grows gets a new array and the old one stays as it is:
+   Not modelled: in-place reuse of write-buffer arenas (memdb.Reset of a pooled memdb at reference count zero, and
+   Transaction.flush when nobody else holds the buffer: the model always takes a new arena), reallocation by append (a dbIter buffer that grows gets a new array and the old one stays as it is:
    the model always reuses the array, the worst case), the garbage collector, the Go scheduler (one step at a time;
    but reads are split in two so that calls overlap), argument buffers of reads (Alias/AliasModel.v has them),
    compaction's drop rule (tables only come from flushes here; a compaction is, for ownership, an internal iterator
